@@ -20,4 +20,5 @@ PROPERTY Lazy
 PROPERTY LazyDone
 PROPERTY StaysDask
 PROPERTY ContainerOnly
+PROPERTY PersistHolds
 CHECK_DEADLOCK FALSE
